@@ -1,4 +1,4 @@
-CONSTANTS BODY = "B"  TMIN = -8  TMAX = 8  CMIN = -1000  CMAX = 1000  BLO = -8  BHI = 8
+CONSTANTS BODY = "B"  TNEG = 8  TMAX = 8  CNEG = 1000  CMAX = 1000  BNEG = 8  BHI = 8
           MAXELEMS = 16  MAXPEERS = 6  REVERSED = FALSE  NEARMAX = FALSE  WRAPPED = TRUE
 SPECIFICATION Spec
 INVARIANTS C15_Range
